@@ -107,6 +107,16 @@ CLAIMED["C18"] = dict(
          "convolution; sosfiltfilt an oracle; real-valued kernels and Butterworth linearity to 1e-9.",
     technique="Coq proofs (bilinearity, trim arithmetic, fold/splice invariants, delta-kernel identity) + extracted-model/implementation correspondence",
     design="5 C18")
+CLAIMED["C11"] = dict(
+    text="Proof: for all six classes load (save x) = Some x for every well-formed object (timestamps, rows, dtype tag, shape, support, columns, keys incl. empty members, metadata) "
+         "and type dispatch, over a key/value model of the .npz file whose writer and reader key strings are REGENERATED from the source by an ast extractor on every run; "
+         "keys_cover (every key read is written), kwargs_accepted and type_written are vm_compute theorems over the generated tables. TsGroup theorems are PARTIAL relative to "
+         "np.argsort's contract (visible premises); the stable-sort version is closed; two corner cases are refuted and recorded as known findings.",
+    note="Trusted: tools/gen_c11.py (cross-checked each run against the member names of really written .npz files); np.savez/np.load and pandas to_dict/from_dict beyond the "
+         "key-to-value map; np.argsort's contract; extraction glue. Known findings: tied timestamps inside a Tsd member may come back permuted (unstable argsort); a group of "
+         "all-empty Tsd members loads as Ts.",
+    technique="translator-regenerated key tables + Coq round-trip proof over a hand model of readers and constructors; extracted model vs real save/load_file/Folder round trips",
+    design="5 C11")
 REASON_TODO = "check not built yet in this round (planned: DESIGN.md section 5)"
 m = {
     "version": 1,
